@@ -19,17 +19,55 @@ def write_env(prog, f_write):
         st.trace.append(('write', sl.abs_start, sl.len))
         outs = []
         n = st.fresh_bv('nwritten', 64)
-        s_ok, s_wb, s_err = st, st.fork(), st.fork()
+        s_ok, s_wb, s_err, s_int = st, st.fork(), st.fork(), st.fork()
         s_ok.pc += [z3.UGE(n, 1), z3.ULE(n, sl.len)]
+        s_ok.pc.append(z3.Implies(z3.ULE(sl.len, 1 << 40), z3.ULE(n, 1 << 40)))   # implied by the line above; spares the solver the carry chain of pos += n
         s_ok.trace.append(('ok', n))
         s_wb.trace.append(('wouldblock',))
         s_err.trace.append(('err',))
+        s_int.trace.append(('interrupted',))
         outs.append((s_ok, mk_ok(Int(n, 64, False))))
         outs.append((s_wb, mk_err(Agg({0: Str(str_lit('"WouldBlock"'))}, 'IoError'))))
         outs.append((s_err, mk_err(Agg({0: Str(str_lit('"Other"'))}, 'IoError'))))
+        # EINTR: the implementation may treat it as fatal or try again - but trying again must go on where the last write stopped
+        outs.append((s_int, mk_err(Agg({0: Str(str_lit('"Interrupted"'))}, 'IoError'))))
+        return outs
+
+    def write_all_stub(ex, st, fn, argv):
+        """std's default Write::write_all over the write stub above: writes until the slice is used up, gives up at the first
+        error other than EINTR (bytes accepted before that error stay accepted).  Bound: at most 3 calls of write()."""
+        sl = deref(ex, st, argv[1])
+        outs, front = [], [(st, b64(0))]
+        for i in range(3):
+            nxt = []
+            for (s0, off) in front:
+                rem = sl.len - off
+                s_done = s0.fork()
+                s_done.pc.append(rem == 0)
+                if ex.feasible(s_done):
+                    outs.append((s_done, mk_ok(Unit())))
+                s0.pc.append(rem != 0)
+                if not ex.feasible(s0):
+                    continue
+                s0.trace.append(('write', sl.abs_start + off, rem))
+                n = s0.fresh_bv('nwritten', 64)
+                s_ok, s_wb, s_err = s0, s0.fork(), s0.fork()
+                s_ok.pc += [z3.UGE(n, 1), z3.ULE(n, rem)]
+                s_ok.trace.append(('ok', n))
+                s_wb.trace.append(('wouldblock',))
+                s_err.trace.append(('err',))
+                outs.append((s_wb, mk_err(Agg({0: Str(str_lit('"WouldBlock"'))}, 'IoError'))))
+                outs.append((s_err, mk_err(Agg({0: Str(str_lit('"Other"'))}, 'IoError'))))
+                nxt.append((s_ok, off + n))
+            front = nxt
+        for (s0, off) in front:
+            s0.pc.append(sl.len - off == 0)       # beyond the bound: only the runs that are complete by now
+            if ex.feasible(s0):
+                outs.append((s0, mk_ok(Unit())))
         return outs
 
     err_kind = io_error_kind_stub(prog)
+    S.append((r'^<S as (std::io::)?Write>::write_all$|^<VerifStream as (std::io::)?Write>::write_all$', write_all_stub))
     S.append((r'^<S as (std::io::)?Write>::write$|^<VerifStream as (std::io::)?Write>::write$', write_stub))
     S.append((r'^(std::io::)?(error::)?Error::kind$', err_kind))
     S.append((r'^HeartbeatTimers::record_tx_activity$', lambda e, s, f, a: [(s, Unit())]))
@@ -51,6 +89,13 @@ def body(ctx):
     import c08, c18
     c08.loop_done(ctx, prog)   # the loop does not end (and the socket is not dropped) with queued bytes unwritten
     c18.report_registration(ctx, c18.registration(ctx, prog))   # what a handle enqueues is picked up: every open channel is polled unless throttled, channels opened later included
+    # the heartbeat timer is the one other writer into the buffer: a heartbeat frame is only ever appended, queued bytes stay whole
+    import c17
+    hv = []
+    c17.process_timers(ctx, prog, hv)
+    if hv:
+        test, exp_desc = c17.hb_replay('timers')
+        ctx.report('heartbeat-timers', f"heartbeat timers vs. queued output: {str(hv[0])[:300]}; native timing scenario: {exp_desc}", {'cex': str(hv[0])[:600]}, test, inject_into='src/io_loop/mod.rs', profiles=('dev',))
     wi = [v for v in viol if v[0] in ('write-interest', 'interest-panic')]
     viol = [v for v in viol if v[0] not in ('write-interest', 'interest-panic')]
     if wi:
@@ -75,10 +120,8 @@ def write_loop(ctx, prog, viol):
     from mirsym.engine import INT_TYPES
     f = prog.method('Inner', 'write_to_stream')
     heads = loop_heads(f)
-    if not heads:
-        raise Unsupported('no loop found in write_to_stream')
-    head = heads[0]
-    carried = loop_carried(f, head)
+    head = heads[0] if heads else None
+    carried = loop_carried(f, head) if heads else []
     inductive = len(carried) == 1 and f.locals[carried[0]] in INT_TYPES
     fname = re.escape(f.name) + '$'
     st, w = build_steady(prog, [])
@@ -100,9 +143,10 @@ def write_loop(ctx, prog, viol):
     else:
         # several locals carry state across iterations: their mutual invariant is not known, so no inductive step; the loop is
         # unrolled from the function entry instead (stated bound: up to 4 iterations)
-        ctx.bound('write_loop', f"no inductive step (loop-carried locals {[(l, f.locals[l]) for l in carried]}): unrolled from entry, <= 4 iterations")
+        ctx.bound('write_loop', f"no inductive step (loop-carried locals {[(l, f.locals[l]) for l in carried]}): unrolled from entry, <= 3 iterations, at most 64 bytes queued")
+        st.pc.append(z3.ULE(L, 64))     # small buffers keep the chained offset arithmetic of an unrolled loop within the solver's reach
         cur, width, starts = None, 64, [st]
-        ks = (1, 2, 3)
+        ks = (1, 2)
     c0 = z3.BitVec('accepted.before', width) if inductive else z3.BitVecVal(0, 64)
     for k in ks:
         ex = io_executor(ctx, prog, unwind=k + 3, extra=write_env(prog, f))
@@ -149,7 +193,7 @@ def write_loop(ctx, prog, viol):
                     conds += [accepted == L, ob.len == 0, ob.abs == a0 + L, z3.BoolVal(last in ('ok', None))]
                     label = 'flushed'
                 elif out == 'IoErrorWritingSocket':
-                    conds += [z3.BoolVal(last == 'err'), ob.abs == a0, ob.len == L]
+                    conds += [z3.BoolVal(last in ('err', 'interrupted')), ob.abs == a0, ob.len == L]
                     label = out
                 else:
                     conds = [z3.BoolVal(False)]
@@ -324,6 +368,11 @@ def write_interest(ctx, prog, viol):
         ps = post_state(prog, s, h)
         c = [z3.Implies(z3.And(ps['len'] != 0, ps['have_written']), (ps['stream_interest'] & WRITABLE) != 0),
              z3.Implies(ps['have_written'], (ps['stream_interest'] & READABLE) != 0) if False else z3.BoolVal(True)]
+        # the registrations are edge-triggered: data that is still unsent when the loop polls again is only picked up if the socket was
+        # re-armed for writable in this very iteration (a socket that merely *stays* registered gives no new edge)
+        rearmed = [(l[3] & WRITABLE) != 0 for l in s.roots['poll'].log if l[0] == 'reregister' and l[1] is s.roots['stream']]
+        if any(t[0] == 'handled' for t in s.trace):     # an empty batch consumed no edge: whatever was armed still is
+            c.append(z3.Implies(z3.And(ps['len'] != 0, ps['have_written']), z3.Or(*rearmed) if rearmed else z3.BoolVal(False)))
         # an iteration that handled events keeps the socket readable afterwards (the reregistration never drops read interest)
         if any(t[0] == 'handled' for t in s.trace):
             sr = s.roots['poll'].find(s.roots['stream'])
@@ -391,6 +440,42 @@ fn verif_replay_c01d() {
         let ok = r.is_ok() && stream.accepted == b"AMQP\x00\x00\x09\x01";
         if !ok { bad.push(format!("would-block-x{}:result={}:accepted={}", block_first, match &r { Ok(()) => "Ok".to_string(), Err(e) => format!("{:?}", e) }, stream.accepted.len())); }
     }
+    // data is pending when the loop wakes up, the writable event flushes all of it (no would-block), and a later event of the same batch
+    // queues more - sealed or not: the loop must get round to writing that as well (edge-triggered: only a re-registration re-arms)
+    for sealed in [false, true].iter() {
+        let (dtx, drx) = std::sync::mpsc::channel();
+        let sealed = *sealed;
+        std::thread::spawn(move || {
+            let mut io = IoLoop::new(crate::ConnectionTuning::default()).unwrap();
+            io.connection_timeout = Some(std::time::Duration::from_millis(300));
+            let (reg, set) = mio::Registration::new2();
+            let mut stream = VS { reg, set: set.clone(), writes: 0, accepted: Vec::new(), block_first: 0 };
+            io.poll.register(&stream, STREAM, mio::Ready::readable() | mio::Ready::writable(), mio::PollOpt::edge()).unwrap();
+            let (oreg, oset) = mio::Registration::new2();
+            io.poll.register(&oreg, mio::Token(7), mio::Ready::readable(), mio::PollOpt::edge()).unwrap();
+            // both sources are ready before the first poll: one batch [STREAM writable, other readable] (in either order)
+            set.set_readiness(mio::Ready::writable()).unwrap();
+            oset.set_readiness(mio::Ready::readable()).unwrap();
+            let mut pushed = false;
+            let r = io.run_io_loop(&mut stream, &mut pushed,
+                |io: &mut IoLoop, s: &mut VS, pushed: &mut bool, ev: mio::Event| {
+                    if ev.token() == STREAM && ev.readiness().is_writable() { io.inner.write_to_stream(s)?; }
+                    if ev.token() == mio::Token(7) && !*pushed {
+                        *pushed = true;
+                        io.inner.push_method(0, amq_protocol::protocol::connection::AMQPMethod::CloseOk(amq_protocol::protocol::connection::CloseOk {}));
+                        if sealed { io.inner.seal_writes(); }
+                    }
+                    Ok(()) },
+                true,
+                |io: &IoLoop, pushed: &bool| *pushed && !io.inner.has_data_to_write());
+            let _ = dtx.send((r.is_ok(), stream.accepted.len()));
+        });
+        match drx.recv_timeout(std::time::Duration::from_secs(5)) {
+            Ok((true, n)) if n > 8 => (),
+            Ok((ok, n)) => bad.push(format!("late-frame-of-the-batch:sealed={}:ok={}:accepted={}", sealed, ok, n)),
+            Err(_) => bad.push(format!("late-frame-of-the-batch:sealed={}:HANG", sealed)),
+        }
+    }
     if bad.is_empty() { println!("VERIF-REPLAY-OK"); } else { println!("VERIF-REPLAY-VIOLATION write-interest-lost {}", bad.join(";").replace(' ', "")); }
 }
 '''
@@ -399,13 +484,14 @@ fn verif_replay_c01d() {
 NATIVE = r'''
 use super::*;
 use amq_protocol::frame::AMQPFrame;
-struct Script { steps: Vec<i32>, i: usize, accepted: Vec<u8> }   // step > 0: accept up to that many bytes; 0: WouldBlock; -1: error
+struct Script { steps: Vec<i32>, i: usize, accepted: Vec<u8> }   // step > 0: accept up to that many bytes; 0: WouldBlock; -1: error; -2: EINTR
 impl std::io::Read for Script { fn read(&mut self, _: &mut [u8]) -> std::io::Result<usize> { Err(std::io::Error::new(std::io::ErrorKind::WouldBlock, "wb")) } }
 impl std::io::Write for Script {
     fn write(&mut self, buf: &[u8]) -> std::io::Result<usize> {
         let st = if self.i < self.steps.len() { self.steps[self.i] } else { 1000 };
         self.i += 1;
         if st == 0 { return Err(std::io::Error::new(std::io::ErrorKind::WouldBlock, "wb")); }
+        if st == -2 { return Err(std::io::Error::new(std::io::ErrorKind::Interrupted, "eintr")); }
         if st < 0 { return Err(std::io::Error::new(std::io::ErrorKind::Other, "boom")); }
         let n = std::cmp::min(st as usize, buf.len());
         self.accepted.extend_from_slice(&buf[..n]);
@@ -425,7 +511,7 @@ fn verif_replay_c01() {
     // 1. protocol header
     { let i = Inner::new(HeartbeatTimers::default(), 16); if &i.outbuf[0..] != b"AMQP\x00\x00\x09\x01" { bad.push("protocol-header".into()); } }
     // 2. write loop: every script of accepts / would-blocks / errors delivers the queued bytes once, in order
-    let alphabet: Vec<i32> = vec![1, 2, 3, 7, 0, -1];
+    let alphabet: Vec<i32> = vec![1, 2, 3, 7, 0, -1, -2];
     let mut scripts: Vec<Vec<i32>> = vec![vec![]];
     for _ in 0..4 { let mut nxt = Vec::new(); for s in scripts.iter() { for a in alphabet.iter() { let mut t = s.clone(); t.push(*a); nxt.push(t); } } scripts.extend(nxt); scripts.sort(); scripts.dedup(); }
     let mut runs = 0u32;
@@ -445,13 +531,14 @@ fn verif_replay_c01() {
                                               Err(e) => { bad.push(format!("unexpected-error:{:?}", e)); } }
             if i.outbuf.is_empty() { break; }
         }
-        let want_errors = if steps.iter().take(s.i).any(|x| *x < 0) { 1 } else { 0 };
+        let want_errors = if steps.iter().take(s.i).any(|x| *x == -1) { 1 } else { 0 };
+        let eintr = steps.iter().take(s.i).any(|x| *x == -2);    // EINTR may be fatal or retried
         // what reached the transport is a prefix of what was queued; unless an error ended the connection, accepted + still queued = queued
         let mut total: Vec<u8> = s.accepted.clone();
         if errors == 0 { total.extend_from_slice(&i.outbuf[0..]); }
         let prefix_ok = s.accepted.len() <= queued.len() && s.accepted[..] == queued[..s.accepted.len()];
         if i.are_writes_sealed() != sealed { if bad.len() < 4 { bad.push(format!("write-loop:steps={:?}:seal-changed-from-{}-to-{}", steps, sealed, i.are_writes_sealed())); } }
-        if !prefix_ok || (errors == 0 && total != queued) || errors != want_errors { if bad.len() < 4 { bad.push(format!("write-loop:steps={:?}:sealed={}:accepted={}:left={}:errors={}/{}", steps, sealed, s.accepted.len(), i.outbuf.len(), errors, want_errors)); } }
+        if !prefix_ok || (errors == 0 && total != queued) || (errors != want_errors && !(eintr && errors <= 1)) { if bad.len() < 4 { bad.push(format!("write-loop:steps={:?}:sealed={}:accepted={}:left={}:errors={}/{}", steps, sealed, s.accepted.len(), i.outbuf.len(), errors, want_errors)); } }
     }
     // 2b. a large backlog (2 MiB) written out in one go: same bytes, same seal
     for sealed in [false, true].iter() {
